@@ -43,6 +43,19 @@ func main() {
 		os.Exit(cmdCheck(os.Args[2:]))
 	case "explain":
 		os.Exit(cmdExplain(os.Args[2:]))
+	case "seeded":
+		if len(os.Args) < 3 {
+			usage()
+		}
+		res := runSeeded(os.Args[2], "/repo", defaultVerif())
+		for _, d := range res["details"].([]map[string]any) {
+			fmt.Printf("%-9s %-8s %v %v\n", d["outcome"], d["seed"], d["reports"], d["note"])
+		}
+		fmt.Printf("seeded %s: reported %v / %v (missed %v, skipped %v, harmless %v)\n", os.Args[2], res["seeded_reported"], res["seeded_total"], res["seeded_missed"], res["seeded_skipped"], res["seeded_harmless"])
+		if m, _ := res["seeded_missed"].(int); m > 0 {
+			os.Exit(1)
+		}
+		os.Exit(0)
 	case "selftest":
 		os.Exit(cmdSelftest(os.Args[2:]))
 	case "list":
@@ -60,7 +73,7 @@ func main() {
 }
 
 func usage() {
-	fmt.Fprintln(os.Stderr, "usage: kvlint check <Cxx> [--tier quick|thorough] [--repo DIR] [--verif DIR] | explain <file> | selftest <Cxx> | list")
+	fmt.Fprintln(os.Stderr, "usage: kvlint check <Cxx> [--tier quick|thorough] [--repo DIR] [--verif DIR] | explain <file> | selftest <Cxx> | seeded <Cxx> | list")
 	os.Exit(2)
 }
 
@@ -135,6 +148,7 @@ func cmdCheck(args []string) int {
 			opts.tagsRuns = thoroughConfigs(id, *repo, overlay, r)
 			if !*noSelf && len(ov) == 0 {
 				opts.selftest = runSelftests(id, *repo, *verif)
+				opts.selftest["seeded_changes"] = runSeeded(id, *repo, *verif)
 			}
 		}
 		return r.Finish(opts)
